@@ -431,7 +431,8 @@ func genQueryDoc(g *Gen, r *rand.Rand) *Node {
 			pi := NewNode()
 			if r.Intn(2) == 0 {
 				pl := []*Node{}
-				for j, n := 0, 1+r.Intn(2); j < n; j++ {
+				// 1..5 path-level parameters: slices decoded from JSON get different spare capacities
+				for j, n := 0, 1+r.Intn(5); j < n; j++ {
 					pl = append(pl, param(j))
 				}
 				pi.Ch["parameters"] = listNode(pl...)
